@@ -116,6 +116,35 @@ Proof.
 Qed.
 Print Assumptions C05_neutral_edges.
 
+(** associativity as an edge identity: (a op b) op c and a op (b op c),
+    computed through different intermediate edges, are the same edge *)
+Theorem C05_associative_edges :
+  forall (sz : nat -> nat), (forall k, 1 <= sz k) ->
+  forall (rr : rule), paired sz rr -> (is_ir rr = true -> forall k, 2 <= sz k) ->
+  forall (o : binop), o = OPlus \/ o = OMax \/ o = OMin ->
+  forall L a b c, wf L a -> wf L b -> wf L c -> is_ir rr && Nat.odd L = false ->
+  apply2 sz (scalar2 o 1 1) rr rr rr L 0 (apply2 sz (scalar2 o 1 1) rr rr rr L 0 a b) c
+  = apply2 sz (scalar2 o 1 1) rr rr rr L 0 a (apply2 sz (scalar2 o 1 1) rr rr rr L 0 b c).
+Proof.
+  intros sz H1 rr Hp H2 o Ho L a b c Ha Hb Hc' Hc.
+  assert (Hcx : forall x, cx rr L 0 x) by (intros x E'; rewrite Hc in E'; discriminate).
+  assert (Hw : forall u v, wf L (apply2 sz (scalar2 o 1 1) rr rr rr L 0 u v)).
+  { intros u v. eapply (reduced_wf sz rr L None). eapply reduced_from_irrel; [exact Hc|].
+    now apply apply2_reduced. }
+  assert (Ev : forall u v x, valid sz x -> wf L u -> wf L v ->
+             eval rr L (apply2 sz (scalar2 o 1 1) rr rr rr L 0 u v) x
+             = scalar2 o 1 1 (eval rr L u x) (eval rr L v x)).
+  { intros u v x Hx Hu Hv. apply (apply2_eval sz rr rr rr); auto. }
+  apply C05_same_function_identical_edge; auto.
+  - rewrite !orb_diag. exact Hc.
+  - intros x Hx. rewrite !Ev by auto.
+    destruct Ho as [E|[E|E]]; subst o; cbn.
+    + symmetry. apply Z.add_assoc.
+    + symmetry. apply Z.max_assoc.
+    + symmetry. apply Z.min_assoc.
+Qed.
+Print Assumptions C05_associative_edges.
+
 (** non-vacuity: an integer-valued pair over a 2-variable domain *)
 Import ListNotations.
 Definition ex_a : dd := N 2 [N 1 [T 3%Z; T 1%Z]; T 2%Z].
